@@ -12,9 +12,16 @@
    (C17_Proofs_Set) [eok U e] = entry e = (identity, object) is the object with that identity and can be hashed
    and compared; [ematch] = same hashed string and == ; [plast l x] = value written last under a key matching x.
    (C17_Proofs_Hist) histories also contain user edits of the code (OSetCode / OSetScheme / OSetVersion), copies made
-   outside the API (OClone = deepcopy / pickle) and uses as a key (OHash, OLookup) before such edits. *)
-From Coq Require Import String ZArith List Bool.
-From HD Require Import Base.Val C17_Model C17_Proofs C17_Proofs_Ext C17_Proofs_Set C17_Proofs_File C17_Proofs_Hist.
+   outside the API (OClone = deepcopy / pickle) and uses as a key (OHash, OLookup) before such edits.
+   (C17_Proofs_More) [from_code_any] = from_code of any argument, [code_like x] = the Code an argument amounts to;
+   [oeq srt st a b] = the value of heap[a] == heap[b]; [okc d] = d is a plain dataset or exactly one code; the larger machine [step2 / run_ops2] adds attribute deletions
+   (ODelAttr) and shallow copies (OShallow: a new object on the same element store, [root l b] = representative of
+   b's store); [fields d] = the six elements of d; [LInv] = every object carries the elements of its store.
+   (C17_Proofs_FileVR) [rstrip_by p] = remove the trailing run of p-characters; [is_pad] = blank or NUL (SH, LO, UC),
+   [is_ws] = Python white space (UR); [strip_of a] = the class of the attribute; [last_by p s] = s ends in a p-character;
+   [sall f s] = every character satisfies f; [textc] = not NUL and no white space other than the blank. *)
+From Coq Require Import String ZArith List Bool Ascii.
+From HD Require Import Base.Val C17_Model C17_Proofs C17_Proofs_Ext C17_Proofs_Set C17_Proofs_File C17_Proofs_Hist C17_Proofs_More C17_Proofs_FileVR.
 Import ListNotations.
 Open Scope string_scope.
 Open Scope Z_scope.
@@ -589,3 +596,173 @@ Theorem C17_file_trailing_blank_lost_observation :
     ds_value d = Some v /\ ds_value d' <> Some v /\ obj_eq (fun _ => None) (HD d) (HD d') = Ok false.
 Proof. exact trailing_blank_lost. Qed.
 Print Assumptions C17_file_trailing_blank_lost_observation.
+
+(* ==== residue of the earlier rounds (C17_Proofs_More) ================================================================ *)
+(* ---- from_code of ANY argument ---- *)
+Theorem C17_from_code_plain_dataset_refused : forall h d q,
+  exists k, from_code_any h (FCPlain d q) = Err k /\
+    ((3 <= n_elems d q <= 4 /\ k = "AttributeError") \/ ((n_elems d q < 3 \/ 4 < n_elems d q) /\ k = "TypeError")).
+Proof. exact from_code_plain_refused. Qed.
+Print Assumptions C17_from_code_plain_dataset_refused.
+
+Theorem C17_from_code_any_ok_iff : forall h x h' r,
+  from_code_any h x = Ok (h', r) <->
+  ((exists a, x = FCRef (RConcept a) /\ h' = h /\ r = a) \/
+   (exists c d, code_like x = Some c /\ init_code c = Ok d /\ h' = (h ++ [d])%list /\ r = length h)).
+Proof. exact from_code_any_ok_iff. Qed.
+Print Assumptions C17_from_code_any_ok_iff.
+
+Theorem C17_from_code_any_accepts : forall h x,
+  (exists h' r, from_code_any h x = Ok (h', r)) <->
+  ((exists a, x = FCRef (RConcept a)) \/ (exists c, code_like x = Some c /\ slen (c_meaning c) <= 64)).
+Proof. exact from_code_any_accepts. Qed.
+Print Assumptions C17_from_code_any_accepts.
+
+Theorem C17_from_code_any_is_the_code : forall srt h x h' r c, code_like x = Some c -> from_code_any h x = Ok (h', r) ->
+  exists d, nth_error h' r = Some d /\ r = length h /\ d_cc d = true /\ wf_concept d /\
+            (forall i, (i < length h)%nat -> nth_error h' i = nth_error h i) /\
+            obj_eq srt (HD d) (PD c) = Ok true /\ obj_eq srt (PD c) (HD d) = Ok true /\
+            hash_key (HD d) = hash_key (PD c).
+Proof. exact from_code_any_is_the_code. Qed.
+Print Assumptions C17_from_code_any_is_the_code.
+
+Theorem C17_history_from_code_plain_refused : forall srt h kids a d, nth_error h a = Some d -> d_cc d = false ->
+  exists k, step srt (h, kids) (OFromCode (RConcept a)) = ((h, kids), VErr k) /\ (k = "TypeError" \/ k = "AttributeError").
+Proof. exact step_from_code_plain. Qed.
+Print Assumptions C17_history_from_code_plain_refused.
+
+(* ---- == between ANY two objects of ANY reachable heap (concepts, plain datasets, nested items, any mix):
+        never an exception, same answer in both operand orders ---- *)
+Theorem C17_reachable_eq_symmetric_total : forall srt ops h kids vs a b da db,
+  run_ops srt ([], []) ops = ((h, kids), vs) -> nth_error h a = Some da -> nth_error h b = Some db ->
+  oeq srt (h, kids) a b = oeq srt (h, kids) b a /\ exists r : bool, oeq srt (h, kids) a b = VB r.
+Proof. exact reachable_eq_symmetric_total. Qed.
+Print Assumptions C17_reachable_eq_symmetric_total.
+
+(* the same for any two objects of ANY heap (also of the larger machine) that are, with their nested items, each a plain
+   dataset or exactly one code *)
+Theorem C17_eq_symmetric_total_local : forall srt h kids a b da db,
+  nth_error h a = Some da -> nth_error h b = Some db -> okc da -> okc db ->
+  (forall c x, kid_of kids a = Some c -> nth_error h c = Some x -> okc x) ->
+  (forall c x, kid_of kids b = Some c -> nth_error h c = Some x -> okc x) ->
+  oeq srt (h, kids) a b = oeq srt (h, kids) b a /\ exists r : bool, oeq srt (h, kids) a b = VB r.
+Proof. exact oeq_sym_total_local. Qed.
+Print Assumptions C17_eq_symmetric_total_local.
+
+(* ---- a nested sequence item goes through the API itself ---- *)
+Theorem C17_nested_item_through_api : forall srt h kids p c dc, kid_of kids p = Some c -> nth_error h c = Some dc ->
+  (wf_concept dc ->
+     step srt (h, kids) (OFromDataset (Addr c) false) = ((update h c (set_cc dc), kids), vnat c) /\
+     nth_error (update h c (set_cc dc)) c = Some (set_cc dc) /\ kid_of kids p = Some c /\
+     (forall i, i <> c -> nth_error (update h c (set_cc dc)) i = nth_error h i)) /\
+  (wf_concept dc -> kid_of kids c = None ->
+     step srt (h, kids) (OFromDataset (Addr c) true) = (((h ++ [set_cc dc])%list, kids), vnat (length h)) /\
+     (forall i, (i < length h)%nat -> nth_error (h ++ [set_cc dc])%list i = nth_error h i)) /\
+  (~ wf_concept dc -> forall copy,
+     step srt (h, kids) (OFromDataset (Addr c) copy) = ((h, kids), VErr "AttributeError")).
+Proof. exact item_through_api. Qed.
+Print Assumptions C17_nested_item_through_api.
+
+Example C17_nested_item_example :
+  snd (run_ops (fun _ => None) ([], []) ex_item_ops) =
+    [VZ 0; VZ 1; VZ 2; VZ 3; VB true; VB true; VL [VS "SRTT-04000"; VB true]; VErr "AttributeError"; VB true].
+Proof. exact ex_item_run. Qed.
+Print Assumptions C17_nested_item_example.
+
+(* ---- the larger machine: attribute deletions and shallow copies ---- *)
+Theorem C17_larger_machine_conservative : forall srt ops st,
+  run_ops2 srt (st, []) (map Std ops) = ((fst (run_ops srt st ops), []), snd (run_ops srt st ops)).
+Proof. exact run_ops2_conservative. Qed.
+Print Assumptions C17_larger_machine_conservative.
+
+Theorem C17_larger_machine_invariant : forall srt ops, LInv (fst (run_ops2 srt (([], []), []) ops)).
+Proof. exact reachable2_linv. Qed.
+Print Assumptions C17_larger_machine_invariant.
+
+Theorem C17_one_store_one_code : forall srt ops h kids l vs b c db dc,
+  run_ops2 srt (([], []), []) ops = (((h, kids), l), vs) ->
+  root l b = root l c -> nth_error h b = Some db -> nth_error h c = Some dc ->
+  fields db = fields dc /\
+  hash_key (HD db) = hash_key (HD dc) /\ view_self (HD db) = view_self (HD dc) /\ view_other (HD db) = view_other (HD dc) /\
+  fd_check db = fd_check dc /\ (wf_concept db <-> wf_concept dc).
+Proof. exact reachable2_one_store_one_code. Qed.
+Print Assumptions C17_one_store_one_code.
+
+Theorem C17_shallow_copy_stays_equal : forall srt ops h kids l vs b c db dc,
+  run_ops2 srt (([], []), []) ops = (((h, kids), l), vs) ->
+  root l b = root l c -> nth_error h b = Some db -> nth_error h c = Some dc -> wf_concept db ->
+  obj_eq srt (HD db) (HD dc) = Ok true /\ obj_eq srt (HD dc) (HD db) = Ok true /\
+  hash_key (HD db) = hash_key (HD dc) /\ exists k, hash_key (HD db) = Ok k.
+Proof. exact reachable2_shallow_equal. Qed.
+Print Assumptions C17_shallow_copy_stays_equal.
+
+Theorem C17_shallow_copy_is_linked : forall srt h kids l a d, nth_error h a = Some d -> LInv ((h, kids), l) ->
+  exists kids' l', step2 srt ((h, kids), l) (OShallow a) = ((((h ++ [d])%list, kids'), l'), vnat (length h)) /\
+    root l' (length h) = root l' a /\ nth_error h (length h) = None /\
+    (forall c, kid_of kids a = Some c -> kid_of kids' (length h) = Some c) /\
+    (forall p, p <> length h -> kid_of kids' p = kid_of kids p).
+Proof. exact shallow_is_linked. Qed.
+Print Assumptions C17_shallow_copy_is_linked.
+
+Theorem C17_malformed_hash_refused : forall d, d_cc d = true ->
+  match d_scheme d, ds_value d with
+  | None, _ => hash_obs d = Err "AttributeError"
+  | Some s, None => hash_obs d = Err "TypeError"
+  | Some s, Some v => hash_obs d = Ok ((s ++ v)%string, true)
+  end.
+Proof. exact hash_obs_cases. Qed.
+Print Assumptions C17_malformed_hash_refused.
+
+Example C17_larger_machine_example :
+  run_history2 [] ex2_ops =
+  VL [VL [VZ 0; VZ 1; VZ 1; VL [VS "SRTABCDEFGHIJKLMNOPQ"; VB true]; VB true; VZ 0; VErr "AttributeError"];
+      VL [VL [VB true; VNone; VS "ABCDEFGHIJKLMNOPQ"; VNone; VS "Breast"; VNone; VNone];
+          VL [VB true; VNone; VS "ABCDEFGHIJKLMNOPQ"; VNone; VS "Breast"; VNone; VNone]];
+      VL [VNone; VNone]; VL [VErr "AttributeError"; VErr "AttributeError"]].
+Proof. exact ex2_run. Qed.
+Print Assumptions C17_larger_machine_example.
+
+(* ---- the file round trip per value representation (NUL padding, white space of UR) ---- *)
+Theorem C17_rstrip_by_rule : forall p s,
+  (exists t, s = rstrip_by p s ++ t /\ sall p t = true) /\ last_by p (rstrip_by p s) = false /\
+  (forall x t, s = x ++ t -> sall p t = true -> last_by p x = false -> rstrip_by p s = x) /\
+  (rstrip_by p s = s <-> last_by p s = false).
+Proof. exact rstrip_by_rule. Qed.
+Print Assumptions C17_rstrip_by_rule.
+
+Theorem C17_store_file_load_per_vr : forall v s m ver, slen m <= 64 ->
+  exists d', store_file_load_vr v s m ver = Ok d' /\
+    attr_slot (select_attr v) d' = Some (rstrip_by (strip_of (select_attr v)) v) /\
+    (forall a, a <> select_attr v -> attr_slot a d' = None) /\
+    ds_value d' = Some (rstrip_by (strip_of (select_attr v)) v) /\ ds_scheme d' = Ok (rstrip_by is_pad s) /\
+    ds_meaning d' = Ok (rstrip_by is_pad m) /\ ds_version d' = option_map (rstrip_by is_pad) ver /\ d_cc d' = true.
+Proof. exact store_file_load_vr_spec. Qed.
+Print Assumptions C17_store_file_load_per_vr.
+
+(* "read back unchanged" at full strength for the per-VR reader: no attribute ends in a character its VR treats as padding
+   => the concept read IS the concept written *)
+Theorem C17_store_file_load_per_vr_unchanged : forall v s m ver, slen m <= 64 ->
+  last_by (strip_of (select_attr v)) v = false -> last_by is_pad s = false -> last_by is_pad m = false ->
+  match ver with Some x => last_by is_pad x = false | None => True end ->
+  exists d', store_file_load_vr v s m ver = Ok d' /\ init v s m ver = Ok d' /\
+    attr_slot (select_attr v) d' = Some v /\ ds_value d' = Some v /\ ds_scheme d' = Ok s /\ ds_meaning d' = Ok m /\
+    ds_version d' = ver.
+Proof. exact store_file_load_vr_unchanged. Qed.
+Print Assumptions C17_store_file_load_per_vr_unchanged.
+
+(* on ordinary text (no NUL, no control characters) the per-VR reader is the blank-only reader of C17_store_file_load *)
+Theorem C17_per_vr_reader_on_text : forall v s m ver,
+  sall textc v = true -> sall textc s = true -> sall textc m = true -> otext ver ->
+  store_file_load_vr v s m ver = store_file_load v s m ver.
+Proof. exact store_file_load_vr_text. Qed.
+Print Assumptions C17_per_vr_reader_on_text.
+
+Theorem C17_vr_padding_observation :
+  exists d1 d2 d3 d4,
+    store_file_load_vr (String "a" (String "000" "")) "DCM" "m" None = Ok d1 /\ ds_value d1 = Some "a" /\
+    store_file_load_vr (String "u" (String "r" (String "n" (String "000" "")))) "DCM" "m" None = Ok d2 /\
+    ds_value d2 = Some (String "u" (String "r" (String "n" (String "000" "")))) /\
+    store_file_load_vr (String "u" (String "r" (String "n" (String "009" "")))) "DCM" "m" None = Ok d3 /\ ds_value d3 = Some "urn" /\
+    store_file_load_vr (String "a" (String "009" "")) "DCM" "m" None = Ok d4 /\ ds_value d4 = Some (String "a" (String "009" "")).
+Proof. exact vr_padding_observation. Qed.
+Print Assumptions C17_vr_padding_observation.
